@@ -40,6 +40,10 @@ fn through_module(ctx: &Ctx, st: &mut Stats, cases: &[Case], python: &str, pymod
         let mut f = std::io::BufWriter::new(std::fs::File::create(&path).unwrap());
         for (idx, c) in cases.iter().enumerate().filter(|(i, _)| i % shards == k) {
             let mut v = json!({"idx": idx, "test_cases": c.tcs, "flags": c.s.names(), "min_rep": c.s.min_rep, "min_len": c.s.min_len, "rust_out": c.rust_out, "order_seed": seed.wrapping_add(idx as u64)});
+            if c.s.has(REP) && idx % 2 == 0 {
+                // after all setters: threshold calls with 0 / -1 that are rejected and caught
+                v["rejected_threshold_call"] = json!(true);
+            }
             if c.s.has(ESC) && idx % 3 == 0 {
                 // call the escaping setter twice; the last value must win
                 v["escape_history"] = json!([!c.s.has(SURR), c.s.has(SURR)]);
